@@ -141,7 +141,7 @@ class ConcPart(Part):
             import random
             r = random.Random("cfault:%d" % seed)
             prog["fault"] = {"index": r.randrange(0, 60), "errno": r.choice(["EIO", "ENOSPC", "EACCES"]),
-                             "persistent": r.random() < 0.5}
+                             "persistent": r.choice([False, True, "noremove"])}
         if self.atom:
             prog["atom"] = True
             import random
@@ -243,8 +243,8 @@ class SingleSweepPart(Part):
     single-call engines; quick = core menu, thorough = extended menu."""
     must_complete = True
 
-    def __init__(self, prop, engine, name, errnos=("EIO",), modes=(False, True), weight=1.0,
-                 knob_sets=None, extended_in=("thorough",), second=False, kinds="core"):
+    def __init__(self, prop, engine, name, errnos=("EIO",), modes=(False, True, "noremove"), weight=1.0,
+                 knob_sets=None, extended_in=("thorough",), second=False, kinds="core", only_tiers=None):
         Part.__init__(self, prop)
         self.engine = engine
         self.name = name
@@ -255,12 +255,13 @@ class SingleSweepPart(Part):
         self.extended_in = extended_in
         self.second = second
         self.kinds = kinds
+        self.only_tiers = only_tiers
         self.rule = self._rule()
 
     def _rule(self):
         if self.engine == "FAULT":
             return ("FAULT sweep: for every (start state, call) of the menu the fault sites of the call are counted "
-                    "on a dry run, then one run per site x errno x {one-off, persistent}: exactly one injected "
+                    "on a dry run, then one run per site x errno x {one-off, persistent, persistent-but-unlinkable}: exactly one injected "
                     "OSError per run; oracles: success reported => whole effect; failed store/tag => pid unbound or "
                     "earlier binding intact + immediate retry; failed store_metadata => previous version intact; "
                     "every other pid untouched; nothing left locked; follow-ups complete. distinct+non-trivial = "
@@ -287,6 +288,8 @@ class SingleSweepPart(Part):
     def items(self, seed, tier, worker, nworkers):
         run = self._runner()
         n = 0
+        if self.only_tiers and tier not in self.only_tiers:
+            return
         for ks in self.knob_sets:
             for sn, su, cn, call in self._menu(tier):
                 h = gen.single_header(seed=0, **ks)
@@ -360,7 +363,7 @@ class SingleRandomPart(SingleSweepPart):
         rng = random.Random("plan:%d" % seed)
         if self.engine == "FAULT":
             prog["fault"] = {"index": rng.randrange(0, 40), "errno": rng.choice(list(self.errnos)),
-                             "persistent": rng.random() < 0.5, "kinds": self.kinds}
+                             "persistent": rng.choice([False, True, "noremove"]), "kinds": self.kinds}
         elif self.engine == "CRASH":
             prog["crash"] = {"index": rng.randrange(0, 40)}
             if self.second and rng.random() < 0.5:
